@@ -56,6 +56,10 @@ var phases = []phaseDef{
 		containerArgProbes(env, rep)
 		readLockWriterStress(env, rep, c.facts)
 	}},
+	{"reentry-samekey", func(env *vh.Env, rep *vh.Report, c *phaseCtx) {
+		reentryUnderWriters(env, rep, c.facts)
+		sameKeyRaces(env, rep)
+	}},
 	{"panic-safety", func(env *vh.Env, rep *vh.Report, c *phaseCtx) { panicSafety(env, rep) }},
 	{"callbacks", func(env *vh.Env, rep *vh.Report, c *phaseCtx) { callbackReentrancy(env, rep) }},
 	{"result-aliasing", func(env *vh.Env, rep *vh.Report, c *phaseCtx) { resultAliasing(env, rep) }},
@@ -92,7 +96,7 @@ func runPhaseWorker(name string, env *vh.Env, rep *vh.Report) {
 		return fams
 	}
 	switch name {
-	case "sweep", "queues", "oracle-lock-step", "traversal-hooks":
+	case "sweep", "queues", "oracle-lock-step", "traversal-hooks", "reentry-samekey":
 		ctx.facts = loadFacts(env, rep)
 	}
 	// a worker that stalls is ended by its own deadline, with what it has
